@@ -835,6 +835,66 @@ def part_c(facts, res):
         return [(p, t) for i, p, t in cfgmod.Cfg(facts.bodies[k[0]]).calls()]
     # The three plumbing facts are decided on call chains.  A recognised-good shape passes, a recognised-bad feature is a
     # finding, any other shape is "not decidable" (checker error) - a correct rewrite must never alarm.
+    # ---- arrival order across two acquisition points: a line obtained from the channel by a SECOND consumer (a blocking wait, a peek)
+    # in one iteration of run and appended BEHIND the batch drained in the next iteration is applied after lines that arrived later
+    try:
+        k_run_ = facts.body("cpu::Cpu::run")["key"]
+        b_run_ = facts.bodies[k_run_]
+        g_run_ = cfgmod.Cfg(b_run_)
+        cg2_ = cfgmod.CallGraph(facts)
+        k_pop_ = [x for x in facts.bodies if x.endswith("socket::Socket::pop_messages")]
+
+        def consumes_channel(key_):
+            for k2_ in [key_] + sorted(cg2_.reachable(key_)):
+                if k2_ in facts.bodies:
+                    for i_, p_, t_ in cfgmod.Cfg(facts.bodies[k2_]).calls():
+                        if "Receiver" in p_ and p_.split("::")[-1] in ("recv", "recv_timeout", "recv_deadline", "try_recv", "iter", "try_iter"):
+                            return True
+            return False
+        run_calls_ = list(g_run_.calls())
+        acq_ = [(i_, p_, t_) for i_, p_, t_ in run_calls_ if p_ in facts.bodies and p_ not in k_pop_ and consumes_channel(p_)]
+        pops_ = [(i_, p_, t_) for i_, p_, t_ in run_calls_ if p_ in k_pop_]
+        if acq_ and pops_:
+            # locals derived from the second consumer / from the drained batch (flow-insensitive closure over the body)
+            def closure(seed):
+                tainted = set(seed)
+                changed = True
+                while changed:
+                    changed = False
+                    for bl_ in b_run_["blocks"]:
+                        for s_ in bl_["st"]:
+                            if s_["k"] != "assign":
+                                continue
+                            r_ = s_["r"]
+                            srcs = [r_.get("o"), r_.get("a"), r_.get("b")] + list(r_.get("ops") or [])
+                            srcl = [o_["p"]["l"] for o_ in srcs if isinstance(o_, dict) and o_.get("k") in ("copy", "move")]
+                            if r_["k"] in ("ref", "rawptr"):
+                                srcl.append(r_["p"]["l"])
+                            if any(l_ in tainted for l_ in srcl) and s_["p"]["l"] not in tainted:
+                                tainted.add(s_["p"]["l"])
+                                changed = True
+                        t_ = bl_["term"]
+                        if t_["k"] == "call" and any(a_.get("k") in ("copy", "move") and a_["p"]["l"] in tainted for a_ in t_["args"]) and t_["dest"]["l"] not in tainted:
+                            tainted.add(t_["dest"]["l"])
+                            changed = True
+                return tainted
+            from_acq = closure([t_["dest"]["l"] for i_, p_, t_ in acq_])
+            from_pop = closure([t_["dest"]["l"] for i_, p_, t_ in pops_])
+            loops_ = g_run_.loops()
+            hdr_ = max(loops_, key=lambda h_: len(loops_[h_])) if loops_ else None
+            for i_, p_, t_ in run_calls_:
+                if p_.split("::")[-1] in ("extend", "push", "push_back", "append", "extend_from_slice") and len(t_["args"]) >= 2:
+                    a0_, a1_ = t_["args"][0], t_["args"][1]
+                    if a0_.get("k") in ("copy", "move") and a0_["p"]["l"] in from_pop and a1_.get("k") in ("copy", "move") and a1_["p"]["l"] in from_acq:
+                        # the appended line was obtained in an EARLIER iteration iff the second consumer runs after this point of the iteration
+                        later = any(g_run_.reaches(i_, ia_, avoid=[hdr_] if hdr_ is not None else ()) for ia_, pa_, ta_ in acq_)
+                        res.ob(not later)
+                        if later:
+                            res.finding("batch|earlier-line-appended-behind", "a line taken from the channel by %s in one iteration is appended BEHIND the batch that pop_messages drains in the "
+                                        "next iteration: it is applied after lines that arrived later (arrival order is not kept)" % acq_[0][1].split("::")[-1])
+            res.inventory["second_channel_consumers_in_run"] = [p_.split("::")[-1] for i_, p_, t_ in acq_]
+    except Exception as e_:      # noqa
+        res.errors.append("arrival-order rule: %s" % str(e_)[:200])
     pm = [p for p, t in calls_of("socket::Socket::pop_messages")]
     last = [p.split("::")[-1] for p in pm]
     good = (any(p.endswith("Receiver::<T>::try_iter") for p in pm) and any(p.endswith("Iterator::collect") for p in pm)) or \
